@@ -1,11 +1,17 @@
 package checks
 
 import (
+	"context"
+	"crypto/rand"
 	"fmt"
+	"math/big"
 	"sort"
 	"strings"
+	"time"
 
 	"github.com/bnb-chain/tss-lib/v2/common"
+	"github.com/bnb-chain/tss-lib/v2/crypto/paillier"
+	ecdsakeygen "github.com/bnb-chain/tss-lib/v2/ecdsa/keygen"
 
 	"verif/core"
 	"verif/sim"
@@ -20,10 +26,10 @@ func init() {
 		Rule: "one deviating party per run (position lowest/middle/highest index), honest parties run unmodified code. Fault catalogue: for every protocol, every message type, every field (each proof component separately; repeated parts at first/last/seeded indices in quick, every index up to 13 + 12 seeded in thorough) x {+1, seeded random value of the same length, the value from a peer's corresponding message, field removed}; " +
 			"whole-message mirror for every message type; wrong secret input; duplicated ring-Pedersen parameters. Oracle: honest outputs valid and in agreement; every honest error names a subset of {deviator} (or the reporter itself / nobody); for fields covered by a commitment, share check or ZK proof at least one honest recipient reports an error, names exactly the deviator, and no honest recipient emits a result; " +
 			"in resharing, if an honest old share was erased then every honest new member emitted valid key data. Quick rotates one alteration kind and one position per field by VERIF_SEED; thorough runs the cross product. Class = (protocol, message.field[index class], alteration, position); non-trivial when the fault was actually applied and an honest party consumed it.",
-		Assumptions: []string{"a case that crashes an honest party is C06's verdict and is counted here as inconclusive", "broadcasts are altered identically for all recipients (reliable broadcast assumed by the library)"},
-		Gen:         c05Gen,
-		Run:         c05Run,
-		MinEvents:   []string{"faults_applied", "honest_errors_checked", "honest_outputs_checked"},
+		Assumptions:       []string{"a case that crashes an honest party is C06's verdict and is counted here as inconclusive", "broadcasts are altered identically for all recipients (reliable broadcast assumed by the library)"},
+		Gen:               c05Gen,
+		Run:               c05Run,
+		MinEvents:         []string{"faults_applied", "honest_errors_checked", "honest_outputs_checked"},
 		CrashInconclusive: true,
 	})
 }
@@ -107,6 +113,15 @@ func c05Gen(tier string, seed int64) []core.Case {
 			add(faultSpec{sp.Short, "*", "", "mirror", poss[k%3], false}, "mirror")
 			k++
 		}
+		if sc.proto == "ecdsa-keygen" || sc.proto == "ecdsa-resharing" {
+			for wi, weak := range []string{"dup-of-peer", "h1=h2", "small-paillier", "small-ntilde"} {
+				pos := poss[(k+wi)%3]
+				p := sc.P()
+				p["fpos"], p["weak"] = pos, weak
+				id := fmt.Sprintf("%s/weak-params:%s@%s", sc.proto, weak, pos)
+				cs = append(cs, core.Case{ID: id, Class: id, Kind: "weak", P: p, Cost: sc.cost + 6})
+			}
+		}
 		if strings.HasSuffix(sc.proto, "signing") || strings.HasSuffix(sc.proto, "resharing") {
 			for _, pos := range poss {
 				if tier != "thorough" && pos != poss[k%3] {
@@ -172,6 +187,9 @@ func c05Run(c core.Case, env *core.Env) core.Result {
 		return r
 	}
 	switch c.Kind {
+	case "weak":
+		fr, err = runWeakParams(s, c.P.Str("fpos"), c.P.Str("weak"))
+		f = faultSpec{Type: "(pre-parameters)", Field: c.P.Str("weak"), How: "weak-params", Pos: c.P.Str("fpos")}
 	case "wrong-secret":
 		fr, err = runWrongSecret(s, c.P.Str("fpos"))
 		f = faultSpec{Type: "(input)", Field: "Xi", How: "wrong-secret", Pos: c.P.Str("fpos")}
@@ -221,7 +239,8 @@ func c05Oracle(r *core.Result, fr *faultRun, f faultSpec) {
 		return
 	}
 	r.Count("faults_applied", 1)
-	covered := !uncoveredFields[s.Proto+"/"+f.Type+"."+f.Field] && f.How != "wrong-secret"
+	// parameter sizes and duplicates are validated by plain comparisons, not by a commitment, share check or proof
+	covered := !uncoveredFields[s.Proto+"/"+f.Type+"."+f.Field] && f.How != "wrong-secret" && f.How != "weak-params"
 	if f.How == "mirror" {
 		// a mirrored message is covered if the type has at least one covered field
 		covered = false
@@ -352,6 +371,13 @@ func c05Oracle(r *core.Result, fr *faultRun, f faultSpec) {
 			r.Count("erasures_observed", 1)
 		}
 	}
+	if f.How == "weak-params" {
+		if errCount > 0 {
+			r.AddSet("weak_params_rejected", s.Proto+":"+f.Field)
+		} else {
+			r.AddSet("weak_params_accepted_consistently", s.Proto+":"+f.Field)
+		}
+	}
 	r.NonTrivial = true
 }
 
@@ -360,4 +386,103 @@ func causeText(e error) string {
 		return ""
 	}
 	return e.Error()
+}
+
+// weakPreParams builds the pre-parameters a deviating party brings.
+func weakPreParams(kind string, base, peer ecdsakeygen.LocalPreParams) (ecdsakeygen.LocalPreParams, error) {
+	cp := base
+	ctx, cancel := context.WithTimeout(context.Background(), 15*time.Minute)
+	defer cancel()
+	switch kind {
+	case "dup-of-peer":
+		return peer, nil
+	case "h1=h2":
+		cp.H2i = new(big.Int).Set(cp.H1i)
+		cp.Alpha, cp.Beta = big.NewInt(1), big.NewInt(1)
+		return cp, nil
+	case "small-paillier":
+		sk, _, err := paillier.GenerateKeyPair(ctx, rand.Reader, 1024, 8)
+		if err != nil {
+			return cp, err
+		}
+		cp.PaillierSK = sk
+		return cp, nil
+	case "small-ntilde":
+		sg, err := common.GetRandomSafePrimesConcurrent(ctx, 512, 2, 8, rand.Reader)
+		if err != nil {
+			return cp, err
+		}
+		P, Q := sg[0].SafePrime(), sg[1].SafePrime()
+		p, q := sg[0].Prime(), sg[1].Prime()
+		NT := new(big.Int).Mul(P, Q)
+		pq := new(big.Int).Mul(p, q)
+		f := common.GetRandomPositiveRelativelyPrimeInt(rand.Reader, NT)
+		h1 := new(big.Int).Mod(new(big.Int).Mul(f, f), NT)
+		var alpha, beta *big.Int
+		for beta == nil {
+			alpha = common.GetRandomPositiveRelativelyPrimeInt(rand.Reader, NT)
+			beta = new(big.Int).ModInverse(alpha, pq)
+		}
+		cp.NTildei, cp.H1i, cp.H2i, cp.Alpha, cp.Beta, cp.P, cp.Q = NT, h1, new(big.Int).Exp(h1, alpha, NT), alpha, beta, p, q
+		return cp, nil
+	}
+	return cp, fmt.Errorf("unknown weak-parameter kind %q", kind)
+}
+
+func runWeakParams(s *session, pos, kind string) (*faultRun, error) {
+	pre, err := PreParams(s.env.Repo)
+	if err != nil {
+		return nil, err
+	}
+	// which index does the deviator have? build a throw-away world to resolve the position
+	probe, _, err := s.make(s.env.Seed + 23)
+	if err != nil {
+		return nil, err
+	}
+	role := "all"
+	if sim.IsResharing(s.Proto) {
+		role = "new"
+	}
+	dn := pickDeviator(probe, role, pos)
+	idx := 0
+	for _, n := range probe.Nodes {
+		if n == dn {
+			break
+		}
+		if role == "all" || n.Group == role {
+			idx++
+		}
+	}
+	peer := (idx + 1) % s.curveCount(role, probe)
+	// the sets actually handed out by the builders: keygen uses pre[i]; resharing rotates by the seed
+	base, peerSet := pre[idx%len(pre)], pre[peer%len(pre)]
+	if sim.IsResharing(s.Proto) {
+		rot := int((s.env.Seed+23)%5+5) % 5
+		base, peerSet = pre[(idx+rot)%5], pre[(peer+rot)%5]
+	}
+	wp, err := weakPreParams(kind, base, peerSet)
+	if err != nil {
+		return nil, err
+	}
+	s.preOverride = map[int]ecdsakeygen.LocalPreParams{idx: wp}
+	defer func() { s.preOverride = nil }()
+	w, in, err := s.make(s.env.Seed + 23)
+	if err != nil {
+		return nil, err
+	}
+	fr := &faultRun{w: w, in: in, s: s, applied: 1}
+	fr.dev = pickDeviator(w, role, pos)
+	fr.dev.Deviator = true
+	w.Run(sim.StartsThen(sim.FIFO), nil)
+	return fr, nil
+}
+
+func (s *session) curveCount(role string, w *sim.World) int {
+	n := 0
+	for _, nd := range w.Nodes {
+		if role == "all" || nd.Group == role {
+			n++
+		}
+	}
+	return n
 }
